@@ -38,6 +38,7 @@ func TestFree(t *testing.T) {
 		if err := json.Unmarshal(b, &s); err != nil {
 			return err
 		}
+		FreeQuota = vio.EnvInt("VERIF_QUOTA", 3000)
 		out.Put(RunFree(s, vio.Env("VERIF_VARIANT", "drain"), time.Duration(vio.EnvInt("VERIF_STILL_S", 30))*time.Second))
 		out.Flush()
 		return nil
